@@ -709,7 +709,7 @@ func (w *Worker) runPath(ld *Loaded, harness string, prefix []int64) (res *PathR
 				res.Model = p.modelMap(mv)
 				p.predictObs(mv, res)
 			} else if r == Unknown {
-				res.Incon = append(res.Incon, "path model: solver unknown")
+				res.Incon = append(res.Incon, "path model: solver unknown ["+p.choiceString()+"]")
 			} else {
 				res.End = "infeasible"
 			}
